@@ -644,7 +644,8 @@ def execute(sc):
             elif sorted(got_codes) != list(expect):
                 res.violate("sgr_codes", way, "style fg=%s bg=%s attrs=%s rendered with SGR %r, expected %r (%r)" % (
                     a[4][0], a[4][1], list(a[4][2]), got_codes, list(expect), ga))
-            elif expect and not ga.endswith("\x1b[0m"):
-                res.violate("sgr_codes", way + ":reset", "no reset after styled text: %r" % ga)
+            elif expect and not re.search(r"\x1b\[[0-9;]*m$", ga):
+                # any SGR sequence after the text ends the style (0, or specific resets such as 39/22)
+                res.violate("sgr_codes", way + ":reset", "styled text is not followed by a reset sequence: %r" % ga)
     res.nontrivial = sa["writes"] >= 3 or bool(res.faults)
     return res
